@@ -399,6 +399,7 @@ func genC02(tier string, seed int64) (*Family, error) {
 		{"empty_elseif_body", []*pstmt{{kind: "if", cond: c(1), body: []*pstmt{o(2)}, elifs: []pelif{{c(3), nil}, {c(4), []*pstmt{o(5)}}}, hasEl: true, els: []*pstmt{o(6)}}, o(7)}},
 		{"empty_elseif_body_in_for", []*pstmt{{kind: "for", lv: "i", bound: "n", body: []*pstmt{{kind: "if", cond: pcond{kind: "cmp", l: "i", op: "==", r: "0"}, body: []*pstmt{o(1)}, elifs: []pelif{{c(2), nil}}, hasEl: true, els: []*pstmt{as("x", "+=", "i"), o(3)}}}}, o(4)}},
 		{"empty_if_and_else_bodies", []*pstmt{{kind: "if", cond: c(1), body: nil, elifs: []pelif{{c(2), []*pstmt{o(3)}}, {c(4), nil}}, hasEl: true, els: nil}, o(5), {kind: "for", lv: "i", bound: "2", body: nil}, as("y", "=", "i")}},
+		{"local_from_injected_field", []*pstmt{as("y", "=", "S.N"), as("y", "+=", "3"), o(1), as("x", ":=", "S.N"), as("x", "=", "7"), as("x", "*=", "2"), {kind: "if", cond: c(2), body: []*pstmt{as("y", "=", "S.N"), as("y", "-=", "1")}}, o(3)}},
 		{"break_in_elseif", []*pstmt{{kind: "for", lv: "i", bound: "n", body: []*pstmt{o(1), {kind: "if", cond: c(2), body: []*pstmt{o(3)}, elifs: []pelif{{c(4), []*pstmt{{kind: "break"}}}}, hasEl: true, els: []*pstmt{o(5)}}, as("x", "+=", "1"), o(6)}}, o(7)}},
 		{"continue_in_elseif", []*pstmt{{kind: "forrange", lv: "p", body: []*pstmt{o(1), {kind: "if", cond: c(2), body: []*pstmt{o(3)}, elifs: []pelif{{c(4), []*pstmt{o(8)}}, {c(5), []*pstmt{{kind: "continue"}}}}}, as("y", "+=", "2"), o(6)}}, o(7)}},
 		{"break_continue_in_else", []*pstmt{{kind: "for", lv: "i", bound: "3", body: []*pstmt{{kind: "if", cond: c(1), body: []*pstmt{o(2)}, hasEl: true, els: []*pstmt{{kind: "if", cond: c(3), body: []*pstmt{{kind: "break"}}, hasEl: true, els: []*pstmt{{kind: "continue"}}}}}, o(4)}}, o(5)}},
@@ -484,6 +485,33 @@ func Q_unbound_after_failed_execution() {
 }
 `)
 	fam.Instances = append(fam.Instances, Instance{Func: "Q_unbound_after_failed_execution", Stratum: "clause:unbound", Desc: "a failed execution's locals are gone in the next execution", Expect: []string{"executed"}})
+	b.WriteString(`
+// forRange over a map visits the keys the map had when the loop started, each once, whatever the body adds or removes
+func Q_maprange_mutation() {
+	for _, body := range []string{"  cnt += 1\n  nk = k + 100\n  mp[nk] = 1\n", "  cnt += 1\n  drop(k)\n", "  cnt += 1\n  mp[k] = 9\n"} {
+		mp := map[int64]int64{1: 10, 2: 20, 3: 30}
+		dc := context.NewDataContext()
+		dc.Add("mp", mp)
+		dc.Add("drop", func(k int64) {
+			for other := range mp {
+				if other != k {
+					delete(mp, other)
+				}
+			}
+		})
+		rb := builder.NewRuleBuilder(dc)
+		must(rb.BuildRuleFromString("rule \"r\" begin\n cnt = 0\n forRange k := mp {\n"+body+" }\n return cnt\nend\n"), "build")
+		eng := engine.NewGengine()
+		err := eng.Execute(rb, true)
+		res, _ := eng.GetRulesResultMap()
+		n, ok := res["r"].(int64)
+		vnd.Assert(err == nil && ok, "the rule succeeds")
+		vnd.Assert(n == 3, "every key the map had at loop start is visited exactly once")
+	}
+	vnd.Reach("executed")
+}
+`)
+	fam.Instances = append(fam.Instances, Instance{Func: "Q_maprange_mutation", Stratum: "clause:maprange", Desc: "forRange over a map whose body adds, removes or overwrites entries", Expect: []string{"executed"}})
 	fam.Instances = append(fam.Instances, Instance{Func: "Q_visibility", Stratum: "clause:visibility", Desc: "local visibility across nesting", Expect: []string{"executed"}})
 	head := "package " + pkg + "\n\nimport (\n\t\"strconv\"\n\n\t\"github.com/bilibili/gengine/builder\"\n\t\"github.com/bilibili/gengine/context\"\n\t\"github.com/bilibili/gengine/engine\"\n\t\"github.com/bilibili/gengine/zz_verif/vnd\"\n)\n\nfunc must(err error, what string) {\n\tif err != nil {\n\t\tvnd.Assert(false, what+\" must succeed\")\n\t}\n}\n" + c02Lib
 	fam.Files[repoDir+"/zz_verif/"+pkg+"/h.go"] = head + b.String()
